@@ -133,7 +133,7 @@ func MakeProfile(prop string, seed uint64, tier string) *Profile {
 			p.SlowW = 3
 		}
 	}
-	if (prop == "C07" || prop == "C02" || prop == "C01" || prop == "C04") && r.Chance(1, 4) {
+	if (prop == "C07" || prop == "C02" || prop == "C01" || prop == "C04" || prop == "C09") && r.Chance(1, 4) {
 		p.Yield = true
 		p.PoolSize = 0
 		p.Tag += "+yield"
